@@ -334,7 +334,7 @@ func (w *world) finish(ci *chainInfo, kv *kvrec.Engine, staleFin int, last passR
 }
 
 func (w *world) config(ci *chainInfo) {
-	w.evs = append(w.evs, trace.Ev{"e": "Config", "N": w.N, "J": ci.j, "C": ci.c, "q": ci.q, "fin": ci.fin})
+	w.evs = append(w.evs, trace.Ev{"e": "Config", "N": w.N, "J": ci.j, "C": ci.c, "q": ci.q, "fin": ci.fin, "hsp": ci.extra == 0})
 }
 
 // scenario: one stale store, the uninterrupted pass, then every cut.
